@@ -3,6 +3,7 @@ C03 — private keys are usable only with the current passphrase; Lock wipes the
 Property theorems only (the invariant and its preservation are in Proofs/Wallet.lean).
 -/
 import MassVerif.Props.C02
+import MassVerif.Props.C12
 
 namespace MassVerif.Wallet
 
@@ -153,5 +154,19 @@ theorem C03_lock_wipes (w : W) : (step w .lock).1.unlocked = false ∧
 /-- non-vacuity: the locked `changePriv` history that used to leave the master key behind -/
 example : let w := run { pubPass := ⟨0, true⟩ } [.newKs ⟨1, true⟩ (some 0) true "", .changePriv ⟨1, true⟩ ⟨2, true⟩]
     w.unlocked = false ∧ w.mem.map (·.masterUsable) = [false] ∧ w.dur.map (·.priv) = [2] := by decide
+
+/-- **One passphrase also after a crash or storage error**: whatever fault strikes
+    whatever operation (in particular a passphrase change over many keystores), all
+    keystores in the store afterwards answer to one and the same private passphrase. -/
+theorem C03_single_passphrase_after_fault {w : W} (h : Reachable w) (f : Tx.Fault) (op : Op) :
+    ∀ d ∈ (durAfterFault w f op).1, ∀ d' ∈ (durAfterFault w f op).1, d.priv = d'.priv := by
+  obtain ⟨w', hr, e⟩ := C12_opens_after h f op
+  rw [e]
+  exact C03_single_passphrase hr
+
+/-- the premise of the theorem above for the passphrase change, on the current tree: the whole
+    re-encryption of all keystores is one write transaction (regenerated from /repo on every run) -/
+theorem C03_passphrase_change_one_transaction :
+    ("ChangePrivPassphrase", 1) ∈ Facts.walletTxReach ∧ ("Unlock", 0) ∈ Facts.walletTxReach := by decide
 
 end MassVerif.Wallet
